@@ -298,6 +298,9 @@ func SetAllocPolicy(limitBytes int, candidates ...int) {
 	st.allocLimit, st.allocBase = uint64(limitBytes), ms.TotalAlloc
 }
 
+// SymbolicClock: see gosym (time.Now becomes an arbitrary non-decreasing instant). Natively the real clock runs.
+func SymbolicClock() {}
+
 // LimitIsViolation: see gosym. Natively a hang / stack exhaustion shows as a crashed or timed-out replay.
 func LimitIsViolation(label string) {}
 
